@@ -799,6 +799,9 @@ class BaseOdeModel(object):
             # else:
             #     raise InputError("Input type should either be a string or list")
 
+            # a range-style name such as 'y1:4' declares several states: each of them gets the limits
+            lim_list=[lim for att, lim in zip(attr_list, lim_list)
+                      for _ in symbols(att.ID if isinstance(att, ODEVariable) else att, seq=True)]
             self._state_lims=lim_list                           # TODO: maybe assigning limits via a dict is tidier/safer
             self.__setattr__(attr_list_name, list(attr_list))
 
